@@ -192,6 +192,15 @@ RECIPES = {
     "C16": dict(mc=[MC_NAMES], record=gen_recorder("C16"), props=["C16"], exhaustive=True,
                 speaks=lambda e: e.get("op") == "String",
                 rule="Language(N).String() for every N in -70000..70000 and 42 extreme values; distinct by N"),
+    "C04": dict(mc=[], record=gen_recorder("C04"), props=["C04"], speaks=lambda e: e.get("op") == "ToSeed",
+                rule="MnemonicToSeed on the product of argument classes (empty, ASCII, list words in NFC/NFD/NFKC/NFKD, full-width, compatibility characters, reordering marks, "
+                     "passphrases beginning with marks, lengths around the 128-byte HMAC block, 4096 bytes, invalid sentences, random Unicode 14 text); distinct by (mnemonic, passphrase)"),
+    "C10": dict(mc=[], record=gen_recorder("C10"), props=["C10"], speaks=lambda e: e.get("op") == "Check" and "group" in e,
+                rule="groups of spellings with equal NFKD (established by TLC): every word of the seeded languages' lists inside valid sentences in asis/NFC/NFD/NFKC/NFKD/full-width "
+                     "forms with U+0020/U+3000/U+00A0/U+2003/mixed separators, invalid sentences, random Unicode strings; distinct by (input, language)"),
+    "C11": dict(mc=[], record=gen_recorder("C11"), props=["C11"], speaks=lambda e: e.get("op") == "ToSeed" and "group" in e,
+                rule="groups of (mnemonic, passphrase) spellings with equal NFKD (established by TLC): covering sentences in five forms and both separators, "
+                     "compatibility/combining passphrases, random Unicode; distinct by (mnemonic, passphrase)"),
     "C05": dict(mc=[mc_codec(False)], record=gen_recorder("C05"), props=["C05"], speaks=valid_enc,
                 rule="NewMnemonicByEntropy outputs decoded by the specification's decoder; distinct by (entropy, language); includes all single-bit flips of seeded bases"),
 }
